@@ -11,6 +11,9 @@ DERIVED_NAMES = ["X", "Y", "Z", "W"]
 
 ALL_CONSTRAINTS = ("exclude", "pin", "min", "atmost", "atleast", "exactly_row", "exactly_k", "sequential", "latin")
 
+# relative frequency of constraint kinds (Exclude and Pin interact with crossing sizes and derived levels most)
+KIND_WEIGHT = {"exclude": 4, "pin": 2, "atmost": 2, "exactly_k": 2}
+
 DEFAULT = {
     "max_factors": 3, "max_levels": 3, "max_weight": 2, "p_weight": 0.2,
     "max_derived": 2, "kinds": ("within", "transition", "window"), "max_width": 3, "max_stride": 3,
@@ -32,7 +35,7 @@ def basic_factors(draw, c):
     n = draw(st.integers(1, c["max_factors"]))
     out = []
     for i in range(n):
-        nl = draw(st.integers(1, c["max_levels"]))
+        nl = draw(st.sampled_from([1] + [k for k in range(2, c["max_levels"] + 1) for _ in range(3)]))   # single-level factors are rare
         levels = []
         for j in range(nl):
             w = 1
@@ -87,7 +90,8 @@ def crossable(spec_factors, derived):
 @st.composite
 def constraint(draw, c, spec, T, design, kinds=None):
     kinds = kinds or c["constraints"]
-    kind = draw(st.sampled_from(kinds))
+    weighted = [k for k in kinds for _ in range(KIND_WEIGHT.get(k, 1))]
+    kind = draw(st.sampled_from(weighted))
     T = max(1, T or 1)
     if kind == "min":
         return {"kind": "min", "k": draw(st.one_of(st.integers(1, T + 4), st.sampled_from([T, T + 1, 2 * T, 2 * T + 1])))}
@@ -96,7 +100,10 @@ def constraint(draw, c, spec, T, design, kinds=None):
         n = draw(st.integers(1, min(3, len(basics))))
         return {"kind": "latin", "factors": list(draw(st.permutations(basics))[:n])}
     dnames = [d["name"] for d in spec["derived"] if d["name"] in design]
-    f = draw(st.sampled_from(list(design) + dnames))       # derived factors twice as likely as targets
+    if dnames and draw(st.booleans()):
+        f = draw(st.sampled_from(dnames))                   # derived factors are targets half of the time
+    else:
+        f = draw(st.sampled_from(list(design)))
     if kind == "sequential":
         return {"kind": "sequential", "factor": f}
     levels = [l[0] for l in S.levels_of(spec, f)]
